@@ -1613,10 +1613,9 @@ class Pipeline:
         This value is `None` if no errors have occurred during
         the pipeline execution.
         """
-        for f in self.functions:
-            if f.error_snapshot:
-                return f.error_snapshot
-        return None
+        snapshots = [f.error_snapshot for f in self.functions if f.error_snapshot]
+        # Several functions may hold a snapshot (of earlier failures): return the most recent one
+        return max(snapshots, key=lambda snapshot: snapshot.timestamp, default=None)
 
     def nest_funcs(
         self,
